@@ -592,13 +592,13 @@ impl Property for C02 {
     fn cases(&self, tier: Tier) -> u64 {
         let n = table().len() as u64 + NARY;
         match tier {
-            Tier::Quick => n * 300,
+            Tier::Quick => n * 1_000,
             Tier::Thorough => n * 150_000,
         }
     }
     fn min_nontrivial(&self, tier: Tier) -> u64 {
         match tier {
-            Tier::Quick => 10_000,
+            Tier::Quick => 40_000,
             Tier::Thorough => 4_000_000,
         }
     }
